@@ -32,10 +32,10 @@ ENGINE = {"name": "kv",
 AS_IMPL = {
     "file": ["WalReplayIgnoresIndex", "WalReplaySkipsEmptyValues", "WalClearedAfterReplayWithoutCheckpoint",
              "AppliedUpdatedAfterData", "SnapshotLabelBehindContent", "PlainPutKeepsTtl", "CasKeepsTtl",
-             "TtlTablePersistedOnStopOnly", "WalReplayWithoutLease"],
+             "TtlTablePersistedOnStopOnly", "WalReplayWithoutLease", "ReloadDropsDueTtl", "CleanupKeepsWal"],
     "rocks": ["AppliedIndexNotWrittenWithData", "ScanRevisionReadAfterIteration", "AppliedUpdatedAfterData",
               "EmptyPrefixScanReturnsNothing", "SnapshotLabelBehindContent", "PlainPutKeepsTtl", "CasKeepsTtl",
-              "TtlTablePersistedOnStopOnly"],
+              "TtlTablePersistedOnStopOnly", "ReloadDropsDueTtl"],
 }
 
 ALL_DEV = sorted(set(AS_IMPL["file"]) | set(AS_IMPL["rocks"]))   # every deviation is engine-guarded in KV.tla
@@ -67,6 +67,30 @@ CFG = {
     # C25: a scan overlapping an apply (windows of both engines), keys around the prefix boundaries
     "scanc-2": C(Feat=["ScanC"], UseKeys=["KA", "KAF", "KF"], PutVals=["a", "b"], MaxLen=2, MaxChunk=2, MaxScan=1),
     "scanc-3": C(Feat=["ScanC"], UseKeys=["KA", "KAF", "KB", "KF"], PutVals=["a", "b"], MaxLen=3, MaxChunk=2, MaxScan=1),
+    # C15: crash at every step boundary and at the points inside apply_chunk / checkpoint / flush, graceful stop,
+    # re-application of the entries above the reported applied index (CAS pairs that distinguish a double apply)
+    "crash-2": C(Feat=["Crash", "CrashIn", "Ckpt", "Stop", "Each"], UseKeys=["KA"], PutVals=["e", "a"], CasKeys=["KA"],
+                 CasExp=["abs", "b"], CasNew=["a", "b"], MaxLen=2, MaxChunk=2, MaxCrash=1, MaxCkpt=1),
+    "crash-3": C(Feat=["Crash", "CrashIn", "Ckpt", "Stop", "Each"], UseKeys=["KA"], PutVals=["e", "a"], CasKeys=["KA"],
+                 CasExp=["abs", "b"], CasNew=["a", "b"], MaxLen=3, MaxChunk=2, MaxCrash=1, MaxCkpt=1),
+    "crash2-3": C(Feat=["Crash", "CrashIn", "Ckpt"], UseKeys=["KA", "KAF"], PutVals=["e", "a"], CasKeys=["KA"],
+                  CasExp=["abs", "b"], CasNew=["b"], TtlKeys=["KAF"], MaxLen=3, MaxChunk=2, MaxCrash=2, MaxCkpt=1),
+    # C16: snapshot at every point with retained in {1,2}, applies between generation and install, install into a
+    # fresh instance, replay of the entries above the installed boundary
+    "snap-3": C(Feat=["Snap", "Each"], UseKeys=["KA"], PutVals=["e", "a"], CasKeys=["KA"], CasExp=["abs", "b"], CasNew=["a", "b"],
+                MaxLen=3, MaxChunk=2, Retained=[1, 2]),
+    "snap-4": C(Feat=["Snap"], UseKeys=["KA", "KAF"], PutVals=["a"], CasKeys=["KA"], CasExp=["abs", "b"], CasNew=["a", "b"],
+                MaxLen=4, MaxChunk=2, Retained=[1, 2, 3]),
+    # C23: put-with-TTL / plain put / CAS / delete on one key, one tick, expiry cleanup, graceful stop, crash with a
+    # current durable image, snapshot install
+    "ttl-w": C(Feat=["Tick"], UseKeys=["KA"], PutVals=["b"], CasKeys=["KA"], CasExp=["a"], CasNew=["b"], TtlKeys=["KA"],
+               MaxLen=3, MaxChunk=2, MaxTick=1, MaxClean=1),
+    "ttl-r": C(Feat=["Tick", "Stop", "Crash", "Ckpt"], UseKeys=["KA"], PutVals=["b"], TtlKeys=["KA"],
+               MaxLen=2, MaxChunk=1, MaxCrash=1, MaxCkpt=1, MaxTick=1, MaxClean=1, CleanCrashOnly=True),
+    "ttl-s": C(Feat=["Tick", "Snap"], UseKeys=["KA"], PutVals=["b"], TtlKeys=["KA"],
+               MaxLen=2, MaxChunk=1, MaxTick=1, MaxClean=1),
+    "ttl-w2": C(Feat=["Tick"], UseKeys=["KA"], PutVals=["b"], CasKeys=["KA"], CasExp=["a"], CasNew=["b"], TtlKeys=["KA", "KAF"],
+                MaxLen=3, MaxChunk=2, MaxTick=2, MaxClean=2),
 }
 
 INV = {
@@ -78,10 +102,17 @@ INV = {
 }
 
 PROPS = {
+    # sample: behaviours replayed per engine (0 = all enumerated behaviours); a RocksDB open costs ~100 ms here
     "C22": dict(cfgs={"quick": ["cas-3", "keys-3"], "thorough": ["cas-3", "cas-4", "cas2k-3", "keys-3", "keys-4"]},
-                sample={"quick": 2500, "thorough": 0}),
+                sample={"quick": {"file": 1500, "rocks": 1000}, "thorough": {"file": 0, "rocks": 0}}),
+    "C15": dict(cfgs={"quick": ["crash-2"], "thorough": ["crash-2", "crash-3", "crash2-3"]},
+                sample={"quick": {"file": 1500, "rocks": 250}, "thorough": {"file": 60000, "rocks": 6000}}),
+    "C16": dict(cfgs={"quick": ["snap-3"], "thorough": ["snap-3", "snap-4"]},
+                sample={"quick": {"file": 1200, "rocks": 150}, "thorough": {"file": 0, "rocks": 5000}}),
+    "C23": dict(cfgs={"quick": ["ttl-w", "ttl-r", "ttl-s"], "thorough": ["ttl-w", "ttl-r", "ttl-s", "ttl-w2"]},
+                sample={"quick": {"file": 300, "rocks": 120}, "thorough": {"file": 4000, "rocks": 1500}}, jobs=64),
     "C25": dict(cfgs={"quick": ["scanc-2"], "thorough": ["scanc-2", "scanc-3", "keys-4"]},
-                sample={"quick": 2500, "thorough": 0}),
+                sample={"quick": {"file": 1200, "rocks": 800}, "thorough": {"file": 0, "rocks": 0}}),
 }
 
 _TEXT = ("TLC model-checks the focused configuration of KV.tla (engine write steps as actions, repaired design) for "
@@ -96,6 +127,9 @@ _NOTE = ("trusted: TLC, the harness' encoding of commands and observations, proc
          "seeded stratified sample of the enumerated behaviours in the quick tier")
 _WHAT = {
     "C22": "key-value command semantics on both engines for every chunking",
+    "C15": "each committed entry is applied exactly once across crashes; the reported applied index matches the data",
+    "C16": "snapshot install plus replay of the log above the boundary reproduces the state; the boundary matches the content (state-machine level)",
+    "C23": "TTL: keys expire when due, plain put / delete / successful CAS cancel an earlier TTL, TTL state survives restart and snapshot install",
     "C25": "prefix scans return exactly the state at the revision they report, also when overlapping an apply",
 }
 MANIFEST_INFO = {p: dict(technique="TLA+/TLC model checking of KV.tla + exhaustive TLC-generated behaviours replayed into "
@@ -200,11 +234,14 @@ def stratified(items, n, rnd):
     return out
 
 
-def run_harness(wd, hdr, schedules, jobs, tag="t"):
+def run_harness(wd, hdr, schedules, jobs, tag="t", ttl_s=None):
+    # behaviours without clock ticks must never see an expiry: their TTL unit is an hour
+    if ttl_s is None:
+        ttl_s = TTL_S if any(st["t"] == "tick" for s in schedules for st in s["steps"]) else 3600
     binp = dv.harness_bin("dv-kv")
     sp = os.path.join(wd, "sched-%s.ndjson" % tag)
     with open(sp, "w") as f:
-        f.write(json.dumps({"hdr": dict(hdr, tick_ms=TICK_MS, ttl_s=TTL_S)}) + "\n")
+        f.write(json.dumps({"hdr": dict(hdr, tick_ms=TICK_MS, ttl_s=ttl_s)}) + "\n")
         for s in schedules:
             f.write(json.dumps(s) + "\n")
     tp = os.path.join(wd, "trace-%s.ndjson" % tag)
@@ -214,7 +251,7 @@ def run_harness(wd, hdr, schedules, jobs, tag="t"):
     return tp
 
 
-def judge(wd, trace_path, par, shard_records=6000):
+def judge(wd, trace_path, par, shard_records=2500):
     """Split the trace at behaviour boundaries, run the TLC judge on every shard, merge."""
     shards = []
     cur, n = [], 0
@@ -323,7 +360,6 @@ def check(prop, tier):
     with concurrent.futures.ThreadPoolExecutor(max_workers=T["tlc_par"]) as ex:
         results = dict(zip(jobs, ex.map(tlc_job, jobs)))
     phase["tlc_mc_and_generation"] = round(time.time() - t0, 1)
-    n = spec["sample"][tier]
     for name in spec["cfgs"][tier]:
         consts = CFG[name]
         st = results[("rep", name)]
@@ -342,13 +378,14 @@ def check(prop, tier):
         transitions += st["generated"] + st2["generated"]
         for eng in ENGINES:
             items = [(shape(b["steps"]), b["steps"]) for b in behs if b["eng"] == eng]
-            share = max(50, n // (2 * len(spec["cfgs"][tier]))) if n else 0
+            n = spec["sample"][tier][eng]
+            share = max(50, n // len(spec["cfgs"][tier])) if n else 0
             for b in stratified(items, share, rnd):
                 schedules.append({"id": "%s/%s/%d" % (name, eng, len(schedules)), "eng": eng, "steps": b})
 
     # 3. real code
     t1 = time.time()
-    tp = run_harness(wd, hdr, schedules, T["jobs"])
+    tp = run_harness(wd, hdr, schedules, spec.get("jobs", T["jobs"]), ttl_s=TTL_S if prop == "C23" else 3600)
     phase["replay_on_real_engines"] = round(time.time() - t1, 1)
     # 4. judge
     t1 = time.time()
@@ -369,6 +406,7 @@ def check(prop, tier):
         seen.add(key)
         s = by_id.get(v["id"])
         replay_paths.append(dv.save_replay(prop, {"engine": "kv", "property": prop, "hdr": hdr,
+                                                  "ttl_s": TTL_S if prop == "C23" else 3600,
                                                   "schedule": dict(s, steps=strip_pred(s["steps"])), "violation": v}))
         if len(replay_paths) >= 5:
             break
@@ -394,7 +432,7 @@ def check(prop, tier):
         "rule": "behaviours = all maximal behaviours of the as-implemented KV.tla model of each listed configuration, "
                 "enumerated by TLC (%d enumerated, %d replayed on the real engines: %s); non-trivial for %s = %s; distinct by "
                 "(engine, label sequence)" % (gen_total, len(schedules),
-                                              "all" if not spec["sample"][tier] else "seeded sample stratified by step shape",
+                                              "all" if gen_total == len(schedules) else "seeded sample stratified by step shape",
                                               prop, NONTRIVIAL_RULE.get(prop, "")),
         "model_checking": mc_stats, "phase_secs": phase,
         "tlc_as_implemented_refutes": sorted(as_impl_refuted),
@@ -403,7 +441,7 @@ def check(prop, tier):
         "timing_invalid_behaviours": len(set(res["invalid"])),
         "monitor_failures_all_properties": len(res["viol"]),
         "known_findings_hit": sorted({"%s/%s/%s" % (k["property"], k["monitor"], k["cause"]) for k, _ in known_hits}),
-        "exhaustive": not spec["sample"][tier],
+        "exhaustive": gen_total == len(schedules),
     }
     level = "model_checking" if not divsum else "exploration"
     dv.write_evidence(prop, tier, level, cov,
@@ -430,7 +468,7 @@ def replay(prop, path):
         payload = json.load(f)
     wd = dv.workdir("kv-replay-" + prop)
     dv.build_harness("dv-kv")
-    tp = run_harness(wd, payload["hdr"], [payload["schedule"]], 1)
+    tp = run_harness(wd, payload["hdr"], [payload["schedule"]], 1, ttl_s=payload.get("ttl_s"))
     res = judge(wd, tp, 1)
     viol = [dict(v, p=prop) if v["p"] == "ANY" else v for v in res["viol"]]
     known = dv.load_known() + dv.load_known_part("kv")
